@@ -500,6 +500,9 @@ impl Ctx {
         };
         let mut runner = TestRunner::new_with_rng(config, TestRng::from_seed(RngAlgorithm::ChaCha, &seed_bytes));
         let failed = Cell::new(false);
+        // the most recent failing evaluation (case, failure): reported when the shrunk case does
+        // not fail again on its own re-run (timing-dependent failures)
+        let last_fail: std::cell::RefCell<Option<(S::Value, Failure)>> = std::cell::RefCell::new(None);
         let header = format!("{{\"property\":{:?},\"check\":{:?},\"case\":", self.prop, name);
         let result = runner.run(&strategy, |case| {
             let js = serde_json::to_string(&case).unwrap();
@@ -520,6 +523,7 @@ impl Ctx {
                         if self.known_match(&fl.sig).is_some() {
                             Ok(())
                         } else {
+                            *last_fail.borrow_mut() = Some((case.clone(), fl.clone()));
                             Err(TestCaseError::fail(fl.sig))
                         }
                     }
@@ -530,6 +534,7 @@ impl Ctx {
                 Ok(()) => Ok(()),
                 Err(fl) => {
                     failed.set(true);
+                    *last_fail.borrow_mut() = Some((case.clone(), fl.clone()));
                     Err(TestCaseError::fail(fl.sig))
                 }
             }
@@ -542,11 +547,15 @@ impl Ctx {
                     Ok(r) => r,
                     Err((loc, msg)) => Err(Failure::new(format!("{name}|panic|{loc}"), format!("panicked at {loc}: {msg}"))),
                 };
-                let fl = match res {
-                    Err(fl) => fl,
-                    Ok(_) => Failure::new(format!("{name}|flaky"), "minimal case passed on re-run (non-deterministic failure)".to_string()),
-                };
-                self.report_failure(name, &minimal, &fl);
+                match (res, last_fail.borrow_mut().take()) {
+                    (Err(fl), _) => self.report_failure(name, &minimal, &fl),
+                    (Ok(_), Some((case, fl))) => {
+                        // keep the real signature and the case that was last seen failing
+                        let fl = Failure::new(fl.sig, format!("{} [non-deterministic: the shrunk case passed when re-run on its own; this is the last evaluation that failed]", fl.what));
+                        self.report_failure(name, &case, &fl);
+                    }
+                    (Ok(_), None) => self.report_failure(name, &minimal, &Failure::new(format!("{name}|flaky"), "minimal case passed on re-run (non-deterministic failure)".to_string())),
+                }
             }
             Err(TestError::Abort(reason)) => {
                 eprintln!("[{}:{}] proptest aborted: {}", self.prop, name, reason);
